@@ -152,7 +152,7 @@ Proof. vm_compute. reflexivity. Qed.
 Example C03_enumerated_nonvacuous : enumerated {| w_sink := SkDgramFullUnread; w_fd1 := FdPlain; w_fd2 := FdPlain; w_nss_local := true |} = true.
 Proof. reflexivity. Qed.
 (** the table does NOT clear the states the property leaves out: a FIFO as file sink, the caller's stdout as a reader-less pipe *)
-Example C03_table_fifo_may_block : may_block C {| w_sink := SkFifoNoReader; w_fd1 := FdPlain; w_fd2 := FdPlain; w_nss_local := true |} (COpen PTemplate (file_oflags C)) = true.
+Example C03_table_fifo_may_block : may_block C {| w_sink := SkFifoNoReader; w_fd1 := FdPlain; w_fd2 := FdPlain; w_nss_local := true |} (COpen PTemplate (N.lor (b_o_wronly C) (b_o_append C))) = true.   (* an open without O_NONBLOCK *)
 Proof. vm_compute. reflexivity. Qed.
 Example C03_table_stdout_pipe_may_signal : may_signal C {| w_sink := SkOk; w_fd1 := FdPipeNoReader; w_fd2 := FdPlain; w_nss_local := true |} (CDprintf 1) = true.
 Proof. vm_compute. reflexivity. Qed.
